@@ -117,3 +117,13 @@ Theorem C07_writer_failed_is_sticky : forall W op,
     match op with WoWrite _ _ _ _ => W' = W /\ rc = 0%Z | _ => True end.
 Proof. exact (failed_is_sticky_lemma WBUF). Qed.
 Print Assumptions C07_writer_failed_is_sticky.
+
+(* composition with C06-M2: the bytes on the wire (all buffers handed over before the i-th, and a
+   prefix p of the i-th; or all of them) are a prefix of the accepted bytes *)
+Theorem C07_wire_is_prefix_of_accepted : forall (starts : list (list N)) acc rest i p q wire,
+  acc = concat starts ++ rest ->
+  (i < length starts /\ nth i starts [] = p ++ q /\ wire = concat (firstn i starts) ++ p) \/
+  (wire = concat starts) ->
+  exists rest', acc = wire ++ rest'.
+Proof. exact wire_is_prefix_of_accepted_lemma. Qed.
+Print Assumptions C07_wire_is_prefix_of_accepted.
